@@ -49,6 +49,26 @@ def summary(obs, rho=None):
     return d
 
 
+def loop_summary(src, rho=None):
+    """loop-mode digest: per function the list of per-variable (flags, bound) of every loop, renamed"""
+    import copy
+    from pymwp import LoopAnalysis
+    r = (lambda v: rho.get(v, v)) if rho else (lambda v: v)
+    res = LoopAnalysis.run(copy.deepcopy(astwire.parse(src)), strict=False)
+    out = {}
+    for fname, fl in res.loops.items():
+        out[fname] = []
+        for lp in fl.loops:
+            d = {}
+            for v, vr in lp.variables.items():
+                b = None
+                if vr.bound:
+                    b = tuple(tuple(sorted(r(x) for x in part)) for part in vr.bound.bound_triple)
+                d[r(v)] = (vr.is_m, vr.is_w, vr.is_p, b)
+            out[fname].append(sorted(d.items()))
+    return out
+
+
 def rename_src(src, rho):
     return re.sub(r'\b[A-Za-z_]\w*\b', lambda m: rho.get(m.group(0), m.group(0)), src)
 
@@ -62,13 +82,38 @@ def run(ctx):
     rng = ctx.rng
     n = ctx.budget(45, 1500)
     progs = []
-    for src in FC.CORPUS_SRC:
+    for src in FC.CORPUS_SRC + [
+            'int f(int x,int y){ while (x < 3) while (y < 2) y = y + x; }',
+            'int f(int x,int y){ while (x < 3) { while (y < 2) { y = y + x; } } }']:
         progs.append((src, None))
     for i in range(n):
         g = Gen(rng, Opts(sugar=False, max_bin=5, max_stmts=3))
         g.o.loop_twin = True
         src = g.function()
         progs.append((src, g))
+    explicit_twins = [
+        ('int f(int x,int y){ do { while (y < 2) { y = y + x; } } while (x < 3); }',
+         'int f(int x,int y){ do while (y < 2) { y = y + x; } while (x < 3); }', 'braces-removed'),
+        ('int f(int x,int y){ while (x < 3) { while (y < 2) { y = y + x; } } }',
+         'int f(int x,int y){ while (x < 3) while (y < 2) y = y + x; }', 'braces-removed'),
+        ('int f(int x,int y,int n){ int i; for (i = 0; i < n; i++) { do { x = x + y; } while (x < 9); } }',
+         'int f(int x,int y,int n){ int i; for (i = 0; i < n; i++) do x = x + y; while (x < 9); }', 'braces-removed'),
+        ('int f(int x,int y){ if (x < y) { while (y < 2) { y = y + 1; } } else { do { x = x * x; } while (x < 2); } }',
+         'int f(int x,int y){ if (x < y) while (y < 2) y = y + 1; else do x = x * x; while (x < 2); }', 'braces-removed'),
+    ]
+    for a, b, kind in explicit_twins:
+        for fin in (False, True):
+            try:
+                sa, sb = summary(observe(a, fin)), summary(observe(b, fin))
+                la, lb2 = loop_summary(a), loop_summary(b)
+            except Exception as e:
+                ctx.count('harness_error')
+                continue
+            ctx.case((a, kind, fin), nontrivial=True, sample={'src': a, 'variant': b, 'kind': kind})
+            ctx.count('t_' + kind)
+            if sa != sb or la != lb2:
+                ctx.violation({'kind': 'result-changes-under-' + kind, 'mode': 'function' if sa != sb else 'loop'},
+                              f'{kind}: `{a}` vs `{b}` (fin={fin}) differ', {'src': a, 'variant': b, 'transformation': kind, 'fin': fin, 'strict': False})
     for src, g in progs:
         names = names_in(src)
         # reverse the sorted order: k-th smallest name becomes a name sorting k-th largest
@@ -101,9 +146,20 @@ def run(ctx):
                 ctx.case((src, kind, fin), nontrivial=(base.get('index') or 0) >= 1 or base.get('infinite', False),
                          sample={'src': src, 'variant': vsrc, 'kind': kind, 'fin': fin})
                 ctx.count('t_' + kind)
-                if 'raised' in base:
-                    ctx.count('base_raises')
+                if 'raised' in base or s2.get('raised') == 'Timeout':
+                    ctx.count('base_raises_or_timeout')
                     continue
+                # loop mode must agree as well (same loops found, same per-variable results)
+                if fin is False:
+                    try:
+                        lb, lv = loop_summary(src), loop_summary(vsrc, inv if vr else None)
+                        ctx.count('loop_mode_compared')
+                        if lb != lv:
+                            ctx.violation({'kind': 'loop-mode-result-changes-under-' + kind},
+                                          f'{kind}: loop analysis of `{src}` vs `{vsrc}` differs',
+                                          {'src': src, 'variant': vsrc, 'transformation': kind, 'fin': fin, 'strict': False})
+                    except Exception as e:
+                        ctx.count('loop_mode_raised_' + type(e).__name__)
                 if s2 != base:
                     what = next((k for k in ('raised', 'infinite', 'index', 'variables', 'valid', 'mats')
                                  if s2.get(k) != base.get(k)), '?')
